@@ -252,7 +252,10 @@ def times_and_mixed_use(ctx):
     cases = [("08:30:00", (8, 30, 0, 0), None), ("08:30:00Z", (8, 30, 0, 0), 0), ("08:30:00.5+02:00", (8, 30, 0, 500000), 120),
              ("08:30:00.1234567+02:00", (8, 30, 0, 123457), 120), ("08:30:00.1234564-05:30", (8, 30, 0, 123456), -330),
              ("23:59:58.9999995Z", (23, 59, 59, 0), 0), ("08:30:00.9999999+01:00", (8, 30, 1, 0), 60),
-             ("00:00:00.0000005-00:00", (0, 0, 0, 1), 0), ("12:00:00.1234565", (12, 0, 0, 123457), None)]
+             ("00:00:00.0000005-00:00", (0, 0, 0, 1), 0), ("12:00:00.1234565", (12, 0, 0, 123457), None),
+             # zones west of Greenwich by less than an hour, and their eastern mirror images
+             ("08:30:00-00:30", (8, 30, 0, 0), -30), ("08:30:00+00:30", (8, 30, 0, 0), 30), ("08:30:00-00:01", (8, 30, 0, 0), -1),
+             ("08:30:00-01:15", (8, 30, 0, 0), -75), ("08:30:00-00:45", (8, 30, 0, 0), -45)]
     data = ('<e:Envelope xmlns:e="%s"><e:Body><fResponse xmlns="%s">%s</fResponse></e:Body></e:Envelope>'
             % (xmlread.ENV11, wsdlkit.TNS, "".join("<t>%s</t>" % c[0] for c in cases))).encode()
     meta = {"stream": "time-leaves", "texts": [c[0] for c in cases]}
@@ -412,15 +415,17 @@ def plain_href_not_nil_and_envelope_attributes(ctx):
               '<xsd:element name="fResponse"><xsd:complexType><xsd:sequence><xsd:element name="link" type="x:Link"/>'
               '<xsd:element name="n" type="xsd:int" nillable="true"/><xsd:element name="m" type="xsd:int" nillable="true"/>'
               '<xsd:element name="s" type="xsd:string" nillable="true"/><xsd:element name="k" type="xsd:int"/>'
-              '</xsd:sequence></xsd:complexType></xsd:element>')
+              '</xsd:sequence><xsd:attribute name="id" type="xsd:ID"/></xsd:complexType></xsd:element>')
     client = wsdlkit.client(wsdlkit.wsdl_doc(schema, "f", "fResponse"))
     for envns in (xmlread.ENV11, xmlread.ENV12):
         for href in ("http://example.org/a", "#top", "#id0"):
             for notnil in ("0", "false"):
-                data = ('<e:Envelope xmlns:e="%s" xmlns:xsi="%s"><e:Body><fResponse xmlns="%s"><link href="%s" rel="next"><t>x</t>'
+                # (the reply element itself may carry an id: an attribute of its own, no independent element)
+                data = ('<e:Envelope xmlns:e="%s" xmlns:xsi="%s"><e:Body><fResponse xmlns="%s" @@ID@@><link href="%s" rel="next"><t>x</t>'
                         '</link><n xsi:nil="%s">5</n><m xsi:nil="true"/><s xsi:nil="%s">text</s>'
                         '<k e:encodingStyle="http://schemas.xmlsoap.org/soap/encoding/">7</k></fResponse></e:Body></e:Envelope>'
-                        % (envns, xmlread.XSI, wsdlkit.TNS, href, notnil, notnil)).encode()
+                        % (envns, xmlread.XSI, wsdlkit.TNS, href, notnil, notnil)).replace(
+                            " @@ID@@", ' id="resp-1"' if href == "#id0" or notnil == "false" else "").encode()
                 meta = {"stream": "href-notnil-envelope-attributes", "envelope": envns, "href": href, "nil": notnil,
                         "reply": data.decode()}
                 ctx.case(common.canon(meta), True)
